@@ -138,7 +138,8 @@ def gen_cases(P, spec):
     g = {"rules": [{"name": n, "def": d, "excl": None} for n, d in defs.items()], "alpha": sorted(alpha) or ["a"]}
     cases = []
     for mod, cn in spec["classes"]:
-        cls = getattr(importlib.import_module("abnf.grammars." + mod), cn)
+        cls = (P.ABNFGrammarRule if mod == "meta" else P.Rule if mod == "core" else
+               getattr(importlib.import_module("abnf.grammars." + mod), cn))
         for r in cls.rules():
             lab = label[id(r)]
             seen = set()
@@ -332,10 +333,12 @@ R5234 = [n for n in META if n not in ("case-insensitive-string", "case-sensitive
 
 def c15(a):
     per_rule = 12 if a.tier == "quick" else 150
-    r = child({"import": ["rfc7405"], "gen": {"classes": [["rfc7405", "Rule"], ["rfc5234", "Rule"]], "seed": a.seed, "per_rule": per_rule, "maxlen": 50}})
+    r = child({"import": ["rfc7405"], "gen": {"classes": [["rfc7405", "Rule"], ["rfc5234", "Rule"], ["meta", ""]], "seed": a.seed, "per_rule": per_rule, "maxlen": 50}})
     if "__error__" in r:
         return {"coverage": {}, "violations": [{"what": "harness: " + r["__error__"][-300:], "identity": "harness-error", "replay_payload": r}]}
-    strings = sorted({s for _, _, _, s in r["cases"]} | {'%s"a"', '%i"a"', '"a"', "<p v>", "a / <b c>", "%x41", '%S"x"'})
+    strings = sorted({s for _, _, _, s in r["cases"]} | {'%s"a"', '%i"a"', '"a"', "<p v>", "a / <b c>", "%x41", '%S"x"', 'a %s"b"', '%s"b" a', 'a / %i"b"', '( a %s"b" )',
+                                                           '[ a / %s"b" ]', 'r = a %s"b"\r\n', 'r = a\r\ns = %s"b" / %i"c"\r\n', '2*3%s"b"', "%x41.42-5A", "%d1-2-3",
+                                                           "<a<b>", "<a>b>"})
     probes = []
     for s in strings:
         for n in META:
@@ -414,7 +417,17 @@ def c19(a):
     probes = []
     for m1, r1, m2, r2 in pairs:
         base = byrule.get((m1, r1.lower()), set()) | byrule.get((m2, r2.lower()), set()) | set(extra)
-        ss = sorted(base | {v for t in base for v in lookalikes(t)})
+        # every printable ASCII character alone, and substituted at each position of the shortest derived sentences: a
+        # character class that differs in ONE code point (a delimiter added to or dropped from tchar, qdtext, ...) shows here
+        own = sorted((t for t in byrule.get((m1, r1.lower()), set()) | byrule.get((m2, r2.lower()), set()) if 1 <= len(t) <= 10), key=len)
+        subst = [chr(c) for c in range(0x20, 0x7F)] if a.tier == "thorough" else list("!\"#$%&'()*+,-./:;<=>?@[\\]^_`{|}~ aA0")
+        sweep = {chr(c) for c in range(0x20, 0x7F)}
+        for t in own[:(4 if a.tier == "thorough" else 1)]:
+            for k in range(len(t)):
+                for ch in subst:
+                    sweep.add(t[:k] + ch + t[k + 1:])
+                sweep.add(t[:k] + t[k + 1:])
+        ss = sorted(base | {v for t in base for v in lookalikes(t)} | sweep)
         for s in ss:
             probes.append([m1, "Rule", r1, s, 0, 2])
             probes.append([m2, "Rule", r2, s, 0, 2])
